@@ -66,11 +66,11 @@ type env struct {
 type otherFile struct{ length, offset int }
 type otherPos struct{}
 
-func (otherPos) String() string                      { return "other:1:1" }
-func (f *otherFile) Position(int) parsley.Position  { return otherPos{} }
-func (f *otherFile) Pos(off int) parsley.Pos        { return parsley.Pos(f.offset + off) }
-func (f *otherFile) Len() int                       { return f.length }
-func (f *otherFile) SetOffset(o int)                { f.offset = o }
+func (otherPos) String() string                    { return "other:1:1" }
+func (f *otherFile) Position(int) parsley.Position { return otherPos{} }
+func (f *otherFile) Pos(off int) parsley.Pos       { return parsley.Pos(f.offset + off) }
+func (f *otherFile) Len() int                      { return f.length }
+func (f *otherFile) SetOffset(o int)               { f.offset = o }
 
 // other, when set, is placed before the parsed file in every file set built
 // by newEnv. usePlacement decides it at the start of a harness run: the file
@@ -218,12 +218,12 @@ func C01_Derivations() {
 type actKey struct{ id, pos int }
 
 type activity struct {
-	active map[actKey]int
+	active  map[actKey]int
 	maxSeen int
-	end    int // global position of the end of the parsed file, computed by the harness
-	rd     *text.Reader
-	limit  int // extra slack over Remaining(pos)
-	failed string
+	end     int // global position of the end of the parsed file, computed by the harness
+	rd      *text.Reader
+	limit   int // extra slack over Remaining(pos)
+	failed  string
 }
 
 type actProbe struct {
